@@ -1,6 +1,7 @@
 ------------------------------ MODULE XlCriteria ------------------------------
 (* C12: criteria of SUMIF / SUMIFS / COUNTIFS / AVERAGEIFS.                          *)
-(* Cell contents:  [k |-> "num", q] (quarter units), [k |-> "text", c] (codes), [k |-> "blank"] *)
+(* Cell contents:  [k |-> "num", q] (quarter units), [k |-> "text", c] (codes), [k |-> "blank"], *)
+(*                 [k |-> "bool", b] (a truth value: NOT a number for a criterion)               *)
 (* Criterion (semantic content):  [op, operand] with op in EQ NE GT GE LT LE and      *)
 (* operand a number [k |-> "num", q] or a text [k |-> "text", c] (which may contain    *)
 (* the wildcards ? * ~).  How it is spelled in the formula (plain value, "op value"     *)
@@ -23,6 +24,9 @@ MatchWhole(p, i, t, j) ==
 NumCmp(op, x, y) == CASE op = "EQ" -> x = y [] op = "NE" -> x # y [] op = "GT" -> x > y [] op = "GE" -> x >= y [] op = "LT" -> x < y [] op = "LE" -> x <= y
 TextEq(pat, t) == MatchWhole(pat, 1, t, 1)
 YN(b) == IF b THEN "yes" ELSE "no"
+\* a criterion text TRUE / FALSE (any case) denotes the truth value; it accepts exactly the cells holding that truth value
+LowerSeq(c) == [i \in 1..Len(c) |-> Lower(c[i])]
+BoolWord(c) == IF LowerSeq(c) = <<116, 114, 117, 101>> THEN "T" ELSE IF LowerSeq(c) = <<102, 97, 108, 115, 101>> THEN "F" ELSE "-"
 \* "yes" / "no" / "oos"
 Accepts(crit, cell) ==
   IF crit.operand.k = "num" THEN
@@ -30,6 +34,9 @@ Accepts(crit, cell) ==
        ELSE YN(cell.k = "num" /\ NumCmp(crit.op, cell.q, crit.operand.q))
   ELSE \* text operand
        IF crit.op \in Ordering THEN "oos"
+       ELSE IF BoolWord(crit.operand.c) # "-" THEN
+            IF cell.k = "text" THEN "oos"
+            ELSE LET hitb == cell.k = "bool" /\ cell.b = (BoolWord(crit.operand.c) = "T") IN IF crit.op = "EQ" THEN YN(hitb) ELSE YN(~hitb)
        ELSE IF ~TildesOk(crit.operand.c, 1) THEN "oos"
        ELSE IF cell.k = "blank" /\ (HasWildcard(crit.operand.c) \/ crit.operand.c = <<>>) THEN "oos"
        ELSE LET hit == cell.k = "text" /\ TextEq(crit.operand.c, cell.c) IN IF crit.op = "EQ" THEN YN(hit) ELSE YN(~hit)
@@ -54,6 +61,14 @@ Guards(col, crit, sp) ==
      \cup (IF crit.operand.k = "num" /\ crit.op \in Ordering /\ HasKind(col, "text") THEN {"C12-F2"} ELSE {})
      \* F3: a blank cell of a criteria range is treated as the number 0
      \cup (IF crit.operand.k = "num" /\ HasKind(col, "blank") /\ YN(NumCmp(crit.op, 0, crit.operand.q)) # Accepts(crit, [k |-> "blank"]) THEN {"C12-F3"} ELSE {})
+     \* F4: a truth value in a criteria range is compared as the number 1 / 0 by a numeric criterion
+     \cup (IF crit.operand.k = "num" /\ \E i \in 1..Len(col) : col[i].k = "bool" /\ YN(NumCmp(crit.op, IF col[i].b THEN 4 ELSE 0, crit.operand.q)) # Accepts(crit, col[i])
+           THEN {"C12-F4"} ELSE {})
+\* ... and SUMIF / SUMIFS / AVERAGEIFS turn the truth values of a criteria range into 1 / 0 BEFORE the criterion is applied, so the criterion TRUE / FALSE
+\* accepts none of them there (COUNTIFS does not cast: the guard holds for the summing functions only)
+GuardsSum(col, crit, sp) ==
+     IF crit.operand.k = "text" /\ BoolWord(crit.operand.c) # "-" /\ crit.op = "EQ" /\ \E i \in 1..Len(col) : col[i].k = "bool" /\ Accepts(crit, col[i]) = "yes"
+     THEN {"C12-F4"} ELSE {}
 RECURSIVE SumOver(_, _)
 SumOver(S, tq) == IF S = {} THEN 0 ELSE LET i == CHOOSE x \in S : TRUE IN (IF tq[i].k = "num" THEN tq[i].q ELSE 0) + SumOver(S \ {i}, tq)
 =============================================================================
